@@ -281,9 +281,128 @@ def check(prog: Program, tier: str) -> Result:
     _safe_callables(prog, res)
     _consumers(prog, res)
     _analyser_purity(prog, res)
-    res.floors.update({"R16.1": 60, "R16.2": 25, "R16.3": 10, "R16.4": 2, "R16.5": 1, "R16.6": 3, "R16.7": 8, "R16.8": 5, "R16.9": 2})
+    _whole_statement_deletes(prog, res)
+    res.floors.update({"R16.1": 60, "R16.2": 25, "R16.3": 10, "R16.4": 2, "R16.5": 1, "R16.6": 3, "R16.7": 8, "R16.8": 5, "R16.9": 2, "R16.10": 4, "R16.11": 1, "R16.12": 1, "R16.13": 1})
     res.analysed.update({"ast_kinds": len(kinds)})
     return res
+
+
+BREAK_HOLDERS = ("If", "With", "AsyncWith", "Try", "TryStar", "Match")   # compound statements whose body can hold a break of the enclosing loop
+
+
+def _break_search(prog: Program, res: Result, fn: Func) -> None:
+    """R16.10: `while <truthy>:` is answered 'blocking' (an endless loop) after a scan of the loop body.  The scan must
+    find a `break` of this loop wherever it can legally be: directly in the body or at any depth inside if / with /
+    try / match statements (not inside nested loops, whose breaks are their own).  Read from the scan: for which kinds
+    of child statement a deep search for ast.Break (walk(child, ..Break..)) is made."""
+    node = fn.posparams[0]
+    scans = [l for l in walk_own(fn.node) if isinstance(l, ast.For) and norm(l.iter) == f"{node}.body" and isinstance(l.target, ast.Name)]
+    # the scan that precedes the final answer for loops: the one whose enclosing `if` names both loop kinds or While
+    deep: Dict[str, Set[str]] = {}
+    holders = [h for h in BREAK_HOLDERS if hasattr(ast, h)]
+    found_any = False
+    for l in scans:
+        child = l.target.id
+        for c in ast.walk(l):
+            if not (isinstance(c, ast.Call) and norm(c.func).split(".")[-1] == "walk" and len(c.args) >= 2 and norm(c.args[0]) == child):
+                continue
+            if "Break" not in norm(c.args[1]):
+                continue
+            found_any = True
+            # kind restrictions on `child` between the call and the loop: isinstance(child, K) / not isinstance(child, K)
+            allowed = set(holders)
+            a = parent(c)
+            prev = c
+            while a is not None and a is not l:
+                tests = []
+                if isinstance(a, ast.If) and (prev in a.body or prev is a.test or any(prev is x for x in ast.walk(a.test))):
+                    tests.append((a.test, prev is a.test or any(prev is x for x in ast.walk(a.test))))
+                for t, inside_test in tests:
+                    conj = t.values if isinstance(t, ast.BoolOp) and isinstance(t.op, ast.And) else [t]
+                    for cj in conj:
+                        neg = isinstance(cj, ast.UnaryOp) and isinstance(cj.op, ast.Not)
+                        core_ = cj.operand if neg else cj
+                        if isinstance(core_, ast.Call) and norm(core_.func) in ("isinstance", "_isinstance_cache") and len(core_.args) == 2 and norm(core_.args[0]) == child:
+                            ks = {x.attr for x in ast.walk(core_.args[1]) if isinstance(x, ast.Attribute)} | {x.id for x in ast.walk(core_.args[1]) if isinstance(x, ast.Name)}
+                            if inside_test and cj is not prev and not any(prev is x for x in ast.walk(cj)):
+                                allowed = (allowed - ks) if neg else (allowed & ks)
+                            elif not inside_test:
+                                allowed = (allowed - ks) if neg else (allowed & ks)
+                # an `elif` chain: the call sits in the orelse of an If whose test selected other kinds
+                if isinstance(a, ast.If) and prev in a.orelse:
+                    t = a.test
+                    conj = t.values if isinstance(t, ast.BoolOp) and isinstance(t.op, ast.And) else [t]
+                    first = conj[0]
+                    if isinstance(first, ast.Call) and norm(first.func) in ("isinstance", "_isinstance_cache") and norm(first.args[0]) == child and len(conj) == 1:
+                        ks = {x.attr for x in ast.walk(first.args[1]) if isinstance(x, ast.Attribute)}
+                        allowed -= ks
+                prev, a = a, parent(a)
+            for k in allowed:
+                deep.setdefault(k, set()).add(f"line {c.lineno}")
+    if not scans:
+        res.undecided("R16.10", fn.loc(), fn.fq, "search for a break of the loop", f"no scan over {node}.body found")
+        return
+    for k in holders:
+        ok = k in deep
+        res.decide(ok, "R16.10", fn.loc(scans[-1]), fn.fq, f"break inside a child ast.{k} statement",
+                   f"searched at any depth ({', '.join(sorted(deep[k]))})" if ok else
+                   f"`while True:` whose body holds a break inside a{'n' if k[0] in 'AI' else ''} {k.lower()} statement is answered 'blocking': "
+                   "the statements after the loop are deleted as unreachable although the loop can be left")
+
+
+def _whole_statement_deletes(prog: Program, res: Result) -> None:
+    """R16.11: delete_unreachable_code may delete a whole `if` / `while` statement only when nothing of it can run:
+    a while loop whose test is false, or an if whose TAKEN branch is empty.  Where the taken branch has statements,
+    only the statements of the other branch are dead.  Path condition at every `yield <the statement>, None`."""
+    from ..pathcond import And, Or, Not
+    fn = prog.funcs.get(("fixes", "delete_unreachable_code"))
+    if fn is None:
+        raise AnalysisError("anchor fixes.delete_unreachable_code not found")
+    loops = [l for l in walk_own(fn.node) if isinstance(l, ast.For) and isinstance(l.target, ast.Name) and "iter_bodies" in norm(l.iter)]
+    if not loops:
+        res.undecided("R16.11", fn.loc(), fn.fq, "deletion of whole if/while statements", "loop over the bodies not found")
+        return
+    loop = loops[0]
+    subj = loop.target.id
+    tv = None
+    for a in ast.walk(loop):
+        if isinstance(a, ast.Assign) and len(a.targets) == 1 and isinstance(a.targets[0], ast.Name) and isinstance(a.value, ast.Call) \
+                and norm(a.value.func).endswith("literal_value") and a.value.args and norm(a.value.args[0]) == f"{subj}.test":
+            tv = a.targets[0].id
+    pa = PathAnalysis(prog, fn)
+    n = 0
+    for y in ast.walk(loop):
+        if not (isinstance(y, ast.Yield) and isinstance(y.value, ast.Tuple) and len(y.value.elts) >= 2):
+            continue
+        tgt, new = y.value.elts[0], y.value.elts[1]
+        if not (isinstance(tgt, ast.Name) and tgt.id == subj and isinstance(new, ast.Constant) and new.value is None):
+            continue
+        n += 1
+        if tv is None:
+            res.undecided("R16.11", fn.loc(y), fn.fq, short(y, 60), "evaluated test value not found")
+            continue
+
+        def goal(w):
+            e = lambda text: pa.formula(ast.parse(text, mode="eval").body, w)
+            return Or(And(e(f"isinstance({subj}, ast.While)"), Not(e(tv))),
+                      And(e(tv), Not(e(f"{subj}.body"))),
+                      And(Not(e(tv)), Not(e(f"{subj}.orelse"))))
+        ok, why = pa.holds_at(y, goal)
+        res.decide(ok, "R16.11", fn.loc(y), fn.fq, f"{short(y, 50)} under {' / '.join(x[:60] for x in _conds_of(y, loop))}",
+                   "the statement is deleted only when its test is false (while) or the taken branch is empty" if ok else
+                   "the whole statement is deleted although the branch that runs has statements: live code is removed with the dead branch")
+    if n == 0:
+        res.ok("R16.11", fn.loc(loop), fn.fq, "deletion of whole if/while statements", "no whole-statement deletion", trivial=True)
+
+
+def _conds_of(n: ast.AST, stop: ast.AST) -> List[str]:
+    out = []
+    child, a = n, parent(n)
+    while a is not None and a is not stop:
+        if isinstance(a, ast.If):
+            out.append(("" if child in a.body else "not ") + norm(a.test))
+        child, a = a, parent(a)
+    return list(reversed(out))[-2:]
 
 
 def _analyser_purity(prog: Program, res: Result) -> None:
@@ -440,6 +559,8 @@ def _is_blocking(prog: Program, res: Result, fn: Func, kinds: List[type]) -> Non
             res.decide(ok, "R16.4", fn.loc(r), fn.fq, f"{cls}: {norm(r)}",
                        f"reached only after {node}.{hdr} was evaluated successfully" if ok else
                        f"'blocking' can be answered for a {cls.lower()} loop whose header value is unknown: the loop may run zero times, yet the statements after it are deleted")
+    # R16.10 a loop is only 'blocking' (never left) if no `break` of it exists at any depth
+    _break_search(prog, res, fn)
     # R16.8 the loop context travels with every recursive call (break/continue block only outside a loop)
     ctx_param = fn.posparams[1] if len(fn.posparams) > 1 else None
     if ctx_param:
@@ -581,11 +702,93 @@ def _safe_callables(prog: Program, res: Result) -> None:
                     detail = ("class admitted only if its own constructors and its base classes are known safe" if ok else
                               "a class is admitted by looking at the constructors in its own body only: with `class C(Base): pass` the call `C()` is declared effect-free although Base.__init__ may have effects")
         res.decide(ok, "R16.6", fn.loc(a), fn.fq, norm(a) + (" [class]" if "class" in detail else ""), detail)
+    _scan_stop(prog, res, fn)
+    _shadowed_builtins(prog, res, fn)
     # starts from the literal set (not from a larger one)
     init = [v for n in walk_own(fn.node) if isinstance(n, ast.Assign) for v in [n.value]
             if isinstance(n.targets[0], ast.Name) and "SAFE_CALLABLES" in norm(v)]
     res.decide(bool(init), "R16.6", fn.loc(), fn.fq, "initial value of the inferred set",
                f"starts from {norm(init[0])}" if init else "does not start from constants.SAFE_CALLABLES")
+
+
+def _scan_stop(prog: Program, res: Result, fn: Func) -> None:
+    """R16.12: the statements of a function are scanned up to the first blocking one.  That statement itself runs - a
+    `raise`, an `assert False`, an if/else that prints and returns in both branches - so it must be among the checked
+    statements unless it is a plain `return` (whose value is checked with the returned expressions)."""
+    for loop in [l for l in walk_own(fn.node) if isinstance(l, ast.For) and isinstance(l.target, ast.Name) and norm(l.iter).endswith(".body")]:
+        child = loop.target.id
+        stops = [i for i in loop.body if isinstance(i, ast.If) and "is_blocking(" in norm(i.test) and any(isinstance(x, ast.Break) for x in ast.walk(i))]
+        if not stops:
+            continue
+        stop = stops[0]
+        appends = [c for c in ast.walk(loop) if isinstance(c, ast.Call) and isinstance(c.func, ast.Attribute) and c.func.attr == "append" and c.args and norm(c.args[0]) == child]
+        before = [c for c in appends if any(c in list(ast.walk(st)) for st in loop.body[:loop.body.index(stop)])]
+        inside = [c for c in appends if c in list(ast.walk(stop))]
+        ok = bool(before)
+        why = "appended to the checked statements before the test"
+        if not ok and inside:
+            # allowed restriction: not isinstance(child, ast.Return)
+            c = inside[0]
+            conds = []
+            a, prev = parent(c), c
+            while a is not None and a is not stop:
+                if isinstance(a, ast.If):
+                    conds.append((norm(a.test), prev in a.body))
+                prev, a = a, parent(a)
+            ok = all((t in (f"not isinstance({child}, ast.Return)",) and pos) or (t == f"isinstance({child}, ast.Return)" and not pos) for t, pos in conds)
+            why = "appended to the checked statements unless it is a plain return" if ok else f"appended only under {conds}"
+        res.decide(ok, "R16.12", fn.loc(stop), fn.fq, "the statement at which the scan of a function body stops",
+                   why if ok else
+                   "the first blocking statement is never checked for effects: a function that raises, asserts False, or prints inside an if/else whose "
+                   "branches all return is declared safe to call, and statements calling it are deleted as pointless")
+        return
+    res.undecided("R16.12", fn.loc(), fn.fq, "the statement at which the scan of a function body stops", "scan loop not found")
+
+
+def _shadowed_builtins(prog: Program, res: Result, fn: Func) -> None:
+    """R16.13: the inference starts from builtins known to be effect-free; a module that defines its own `format`,
+    `sorted`, ... function, class, variable or import under such a name must not inherit that verdict: the names the
+    module binds are taken out of the initial set."""
+    init = [n for n in walk_own(fn.node) if isinstance(n, ast.Assign) and isinstance(n.targets[0], ast.Name) and "SAFE_CALLABLES" in norm(n.value)]
+    if not init:
+        return     # reported by the initial-value clause
+    target = init[0].targets[0].id
+    removed: List[ast.AST] = []
+    v = init[0].value
+    if isinstance(v, ast.BinOp) and isinstance(v.op, ast.Sub):
+        removed.append(v.right)
+    for n in walk_own(fn.node):
+        if isinstance(n, ast.AugAssign) and isinstance(n.op, ast.Sub) and norm(n.target) == target:
+            removed.append(n.value)
+        if isinstance(n, ast.Call) and isinstance(n.func, ast.Attribute) and n.func.attr in ("difference_update", "difference") and norm(n.func.value) in (target, norm(v)):
+            removed.extend(n.args)
+    from ..defuse import assignments
+    text = ""
+    todo = list(removed)
+    seen = set()
+    while todo:
+        e = todo.pop()
+        text += " " + norm(e)
+        for x in ast.walk(e):
+            if isinstance(x, ast.Name) and x.id not in seen:
+                seen.add(x.id)
+                todo.extend(d for _, d in assignments(fn, x.id) if d is not None)
+            if isinstance(x, ast.Call):
+                r = prog.resolve_call(x.func, fn.mod, fn)
+                if r and r[0] == "fn" and r[1].key not in seen:
+                    seen.add(r[1].key)
+                    text += " " + norm(r[1].node)
+    kinds = {"function definitions": "FunctionDef" in text, "class definitions": "ClassDef" in text,
+             "assigned names": "Store" in text or "get_defined_names" in text, "imported names": "alias" in text or "Import" in text or "get_imported_names" in text}
+    if not removed:
+        res.bad("R16.13", fn.loc(init[0]), fn.fq, "builtins redefined by the module",
+                f"the inferred set starts from {norm(v)} without removing the names the module itself binds: a user function called `format` or "
+                "`sorted` is taken for the effect-free builtin and statements calling it are deleted")
+        return
+    missing = [k for k, ok in kinds.items() if not ok]
+    res.decide(not missing, "R16.13", fn.loc(init[0]), fn.fq, "builtins redefined by the module",
+               "names bound by the module (functions, classes, assignments, imports) are removed from the initial set" if not missing else
+               f"names bound through {missing} are not removed from the initial set of safe builtins")
 
 
 # ------------------------------------------------------------------------------------------------ R16.7
@@ -641,6 +844,22 @@ def _positive(test: ast.AST) -> bool:
 from ..selftest import Variant  # noqa: E402
 
 VARIANTS: List[Variant] = [
+    Variant("blocking-statement-not-checked", "FIRE", "parsing",
+            "                if core.is_blocking(child):\n                    if not isinstance(child, ast.Return):\n                        # For example a raise, or an if where all branches return\n                        nonreturn_children.append(child)\n                    break\n",
+            "                if core.is_blocking(child):\n                    break\n", "R16.12"),
+    Variant("blocking-statement-appended-first", "SILENT", "parsing",
+            "                if core.is_blocking(child):\n                    if not isinstance(child, ast.Return):\n                        # For example a raise, or an if where all branches return\n                        nonreturn_children.append(child)\n                    break\n\n                nonreturn_children.append(child)\n",
+            "                if not isinstance(child, ast.Return):\n                    nonreturn_children.append(child)\n                if core.is_blocking(child):\n                    break\n"),
+    Variant("redefined-builtins-stay-safe", "FIRE", "parsing",
+            "    safe_callables = set(constants.SAFE_CALLABLES) - redefined_names\n", "    safe_callables = set(constants.SAFE_CALLABLES)\n", "R16.13"),
+    Variant("redefined-builtins-forget-classes", "FIRE", "parsing",
+            "core.walk(root, (ast.FunctionDef, ast.AsyncFunctionDef, ast.ClassDef))}\n        | {(alias", "core.walk(root, (ast.FunctionDef, ast.AsyncFunctionDef))}\n        | {(alias", "R16.13"),
+    Variant("break-searched-only-in-ifs", "FIRE", "core",
+            "            elif not isinstance(child, (ast.For, ast.While)) and any(walk(child, ast.Break)):\n                return False  # The loop can be left from inside e.g. a try or with statement\n", "", "R16.10"),
+    Variant("break-searched-in-every-child", "SILENT", "core",
+            "            elif not isinstance(child, (ast.For, ast.While)) and any(walk(child, ast.Break)):\n", "            elif any(walk(child, ast.Break)):\n"),
+    Variant("whole-if-deleted-with-its-live-branch", "FIRE", "fixes",
+            "                for child in node.orelse:\n                    yield child, None, transaction\n", "                for _ in node.orelse:\n                    yield node, None, transaction\n", "R16.11"),
     Variant("whitelist-extended-in-place", "FIRE", "core",
             "            safe_callable_whitelist = safe_callable_whitelist | {node.func.attr}\n",
             "            safe_callable_whitelist |= {node.func.attr}\n", "R16.9"),
